@@ -1074,11 +1074,18 @@ func (p *printer) expr1(expr ast.Expr, prec1, depth int) {
 			p.print(token.RBRACE)
 		}
 	case *ast.ErrWrapExpr:
-		p.expr(x.X)
+		if x.Default != nil && token.UnaryPrec < prec1 {
+			// x?:d is parsed at the unary level: parenthesis needed
+			p.print(token.LPAREN)
+			p.expr(x)
+			p.print(token.RPAREN)
+			break
+		}
+		p.expr1(x.X, token.HighestPrec, depth)
 		p.print(x.Tok)
 		if x.Default != nil {
 			p.print(token.COLON)
-			p.expr(x.Default)
+			p.expr1(x.Default, token.UnaryPrec, depth)
 		}
 	case *ast.LambdaExpr:
 		if x.LhsHasParen {
